@@ -238,6 +238,10 @@ DoSendFail(r, h, why) ==
         asSame == q.ph = "exec" /\ TakeIsSame(q, h) /\ ~asNext
         asPrep == q.ph = "exec" /\ "prep" \in q.must /\ h = q.cur
         asGhost == ~asNext /\ ~asSame /\ ~asPrep /\ TakeIsGhost(q, h)
+        \* the close notification of the same send can be logged first (the hook fires before OnClose takes the
+        \* request lock, which the sending goroutine still holds): the host is already accounted for
+        asDup == ~asNext /\ ~asSame /\ ~asPrep /\ ~asGhost /\ q.nrep = 0
+                 /\ q.tried # <<>> /\ h = q.tried[Len(q.tried)]
     IN
     /\ rq' = [rq EXCEPT ![r] =
                 [q EXCEPT !.tried = IF asNext \/ asGhost THEN Append(q.tried, h) ELSE q.tried,
@@ -247,7 +251,7 @@ DoSendFail(r, h, why) ==
                           !.must = IF asSame THEN (IF RetrySameSpins THEN q.must ELSE {"next"})
                                    ELSE IF asPrep THEN (IF ReprepareFailForwards THEN {"reply_unprepared"} ELSE {"next"})
                                    ELSE q.must]]
-    /\ bad' = Flag(justified /\ (asNext \/ asSame \/ asPrep \/ asGhost \/ q.fork), "C05",
+    /\ bad' = Flag(justified /\ (asNext \/ asSame \/ asPrep \/ asGhost \/ asDup \/ q.fork), "C05",
                    IF ~justified THEN "send to a host with usable connections failed (host skipped)"
                    ELSE "send attempt not prescribed by the retry policy", r)
     /\ UNCHANGED <<conn, out>>
